@@ -1297,27 +1297,41 @@ func c18g(c *Ctx) {
 			} else {
 				conjs = d.cs
 			}
-			all := len(conjs) > 0
-			for _, cj := range conjs {
-				has := false
-				for _, l := range cj {
-					for _, gl := range guards {
-						if stripVer(l) == stripVer(gl) {
-							has = true
-						}
-						// an ASCII digit arm satisfies unicode.IsDigit
-						if strings.HasPrefix(stripVer(gl), "+unicode.IsDigit($0.ch") && strings.HasPrefix(l, "+($0.ch") {
-							var k int
-							if _, err := fmt.Sscanf(l[strings.LastIndex(l, " == ")+4:], "%d)", &k); err == nil && k >= 48 && k <= 57 {
+			// only the ways of getting here that have not read a character yet matter: after
+			// `if ch == '-' { readChar() }` the merged reader call is reached either having
+			// consumed the sign, or under the arm's entry test
+			restricted := unconsumedConds(c, fn, in.Block(), func(x ssa.Instruction) bool {
+				ci, ok := x.(ssa.CallInstruction)
+				if !ok {
+					return false
+				}
+				h := callee(ci)
+				return h != nil && ((h == rc && !isInLoopRegion(x.Block())) || mustConsume[h])
+			})
+			guarded := func(conjs []conj) bool {
+				for _, cj := range conjs {
+					has := false
+					for _, l := range cj {
+						for _, gl := range guards {
+							if stripVer(l) == stripVer(gl) {
 								has = true
+							}
+							// an ASCII digit arm satisfies unicode.IsDigit
+							if strings.HasPrefix(stripVer(gl), "+unicode.IsDigit($0.ch") && strings.HasPrefix(l, "+($0.ch") {
+								var k int
+								if _, err := fmt.Sscanf(l[strings.LastIndex(l, " == ")+4:], "%d)", &k); err == nil && k >= 48 && k <= 57 {
+									has = true
+								}
 							}
 						}
 					}
+					if !has {
+						return false
+					}
 				}
-				if !has {
-					all = false
-				}
+				return true
 			}
+			all := (len(conjs) > 0 && guarded(conjs)) || (restricted != nil && guarded(restricted))
 			if all {
 				guaranteed[in] = "entry test implies the guard of " + g.Name() + "'s loop"
 			}
@@ -1463,4 +1477,68 @@ func indexSepLen(t string) int {
 		return -1
 	}
 	return len(s)
+}
+
+// unconsumedConds: the reaching conditions of block b restricted to the paths from the
+// function entry on which no instruction satisfying isCons was executed before b (nil when
+// it cannot be computed). An empty, non-nil result means every path has consumed already.
+func unconsumedConds(c *Ctx, fn *ssa.Function, b *ssa.BasicBlock, isCons func(ssa.Instruction) bool) []conj {
+	pc := c.PC(fn)
+	t := c.T(fn)
+	cond := map[*ssa.BasicBlock][]conj{}
+	done := map[*ssa.BasicBlock]bool{}
+	if len(fn.Blocks) == 0 {
+		return nil
+	}
+	cond[fn.Blocks[0]] = []conj{{}}
+	done[fn.Blocks[0]] = true
+	consumes := func(x *ssa.BasicBlock) bool {
+		for _, in := range x.Instrs {
+			if isCons(in) {
+				return true
+			}
+		}
+		return false
+	}
+	for _, x := range t.rpo {
+		if x == fn.Blocks[0] {
+			continue
+		}
+		var acc []conj
+		for _, p := range x.Preds {
+			if x.Dominates(p) {
+				continue // back edge
+			}
+			if !done[p] {
+				continue
+			}
+			if consumes(p) {
+				continue // everything that continues from p has consumed
+			}
+			eds := pc.edgeDNF(p, x)
+			if isLoopHeader(p) && !loopBody(p)[x] {
+				eds = []conj{{}}
+			}
+			for _, cj := range cond[p] {
+				for _, e := range eds {
+					if n, ok := conjMerge(cj, e); ok {
+						acc = append(acc, n)
+					}
+				}
+			}
+		}
+		acc = simplify(acc)
+		if len(acc) > maxConj {
+			return nil
+		}
+		cond[x] = acc
+		done[x] = true
+	}
+	if !done[b] {
+		return nil
+	}
+	if cond[b] == nil {
+		return []conj{}
+	}
+	return cond[b]
 }
